@@ -103,6 +103,7 @@ type varsCase struct {
 	Matrix   [][]string          `json:"matrix,omitempty"` // product: rows: key, items...
 	Loop     *vLoop              `json:"loop,omitempty"`   // kind loop
 	Chain    *vChain             `json:"chain,omitempty"`  // kind envchain
+	EnvPipe  *vEnvPipe           `json:"envpipe,omitempty"` // kind envpipe (harness/varsenv.go)
 }
 
 // vChain: `env:` entries given by `sh:` that read other env entries (global and task level) and
@@ -500,6 +501,13 @@ func evalVarsAll(d varsCase) (lines []varsLine) {
 	}
 	if d.Kind == "envchain" && d.Chain != nil {
 		return evalVarsChain(d)
+	}
+	if d.Kind == "envpipe" && d.EnvPipe != nil {
+		cl, il := evalEnvPipe(*d.EnvPipe)
+		if il == "skipped-no-cli" {
+			return nil
+		}
+		return []varsLine{{cl, il}}
 	}
 	varsCaseNo++
 	base := os.Getenv("VERIF_SCRATCH")
@@ -1243,6 +1251,22 @@ func runVars(c *Ctx) {
 		}
 		c.Hit("envchain")
 		emitAll(varsCase{Kind: "envchain", Chain: ch, Dotenvs: map[string][][2]string{}})
+	}
+	// the environment clause over the real pipeline: global env templated twice, sh: entries, both settings of the experiment
+	for _, ep := range []vEnvPipe{
+		{Genv: []vDef{{"EA", "lit", "e-{{.VA}}"}}, Gvars: []vDef{{"VA", "lit", "x"}}, Tvars: []vDef{{"VA", "lit", "y"}}},
+		{Prec: true, Os: [][2]string{{"EA", "osea"}, {"VA", "osva"}}, Genv: []vDef{{"EA", "lit", "ge"}, {"EB", "envsh", "VA"}}, Gvars: []vDef{{"VA", "lit", "gv"}, {"VB", "envsh", "EA"}}},
+		{Os: [][2]string{{"EA", "osea"}, {"VA", "osva"}}, Genv: []vDef{{"EA", "lit", "ge"}, {"EB", "envsh", "VA"}}, Gvars: []vDef{{"VA", "lit", "gv"}, {"VB", "envsh", "EA"}}},
+		{Dir: "sub", Genv: []vDef{{"EA", "sh", "K0"}}, Tenv: []vDef{{"EB", "sh", "K0"}}},
+	} {
+		ep := ep
+		emitAll(varsCase{Kind: "envpipe", EnvPipe: &ep, Dotenvs: map[string][][2]string{}})
+	}
+	np := c.Pick(300, 3000)
+	for i := 0; i < np; i++ {
+		ep := c.genEnvPipe()
+		c.Hit(fmt.Sprintf("envpipe:prec=%v", ep.Prec))
+		emitAll(varsCase{Kind: "envpipe", EnvPipe: &ep, Dotenvs: map[string][][2]string{}})
 	}
 	nl := c.Pick(40, 400)
 	for i := 0; i < nl; i++ {
